@@ -9,6 +9,7 @@ EXPLANATION = (
     "calls check_timeout and check_collection_size inside the loop; (2) a ResourceLimitExceeded error travelling down a row stream is never dropped: "
     "the same adaptor rule as C22.1 (a dropped limit error is a silently truncated result); (3) the guard iterator's next() consults the limits on "
     "every item. The amount of work between two guard checks and complete-vs-limited result equality are not decided."
+    " C33.6: the collection measured by a check_collection_size call is not built through take / truncate."
 )
 
 EXEC = "nervusdb_query::executor"
